@@ -1,0 +1,99 @@
+//go:build verif
+
+package introspection
+
+// Contracts for the deductive verifier in /verif (comment-only file, build tag verif).
+
+// C17, introspection result -> schema document: every attribute of an introspection item that the schema language
+// can express reaches the Import* call of the document ("nothing missing"). Written per import function from the
+// fields of the introspection structs.
+
+// the introspection data is written by the generator's visitor callbacks only; the converter reads it
+//@ decl stable FullType.Interfaces by introspectionVisitor.EnterInterfaceTypeDefinition, introspectionVisitor.EnterObjectTypeDefinition, NewFullType
+//@ decl stable FullType.PossibleTypes by introspectionVisitor.EnterInterfaceTypeDefinition, introspectionVisitor.EnterUnionMemberType, NewFullType
+//@ decl stable FullType.EnumValues by introspectionVisitor.LeaveEnumValueDefinition, NewFullType
+//@ decl stable FullType.Fields by introspectionVisitor.LeaveFieldDefinition, NewFullType
+//@ func JsonConverter.importType
+//@   modifies *
+//@   safety none
+
+//@ func JsonConverter.importObject
+//@   requires j != nil && fullType != nil
+//@   ghost var g_passed int = -1
+//@   ghost var g_fields int = -1
+//@   at call Document.ImportObjectTypeDefinition: ghost g_passed = len(arg4)
+//@   at call Document.ImportObjectTypeDefinition: ghost g_fields = len(arg3)
+//@   at call JsonConverter.importFields: assert {the.types.fields.are.imported} arg1 == fullType.Fields
+//@   ensures {implemented.interfaces.reach.the.document} result == nil ==> g_passed == old(len(fullType.Interfaces))
+//@   modifies *
+//@   safety no-bounds
+//@   loop 0:
+//@     invariant len(iRefs) == old(len(fullType.Interfaces)) && fresh(iRefs)
+
+//@ func JsonConverter.importInterface
+//@   requires j != nil && fullType != nil
+//@   ghost var g_passed int = -1
+//@   at call Document.ImportInterfaceTypeDefinitionWithDirectives: ghost g_passed = len(arg4)
+//@   at call Document.ImportInterfaceTypeDefinition: ghost g_passed = 0
+//@   at call JsonConverter.importFields: assert {the.types.fields.are.imported} arg1 == fullType.Fields
+//@   ensures {implemented.interfaces.reach.the.document} result == nil ==> g_passed == old(len(fullType.Interfaces))
+//@   modifies *
+//@   safety no-bounds
+//@   loop 0:
+//@     invariant len(iRefs) == old(len(fullType.Interfaces)) && fresh(iRefs)
+
+//@ func JsonConverter.importUnion
+//@   requires j != nil && fullType != nil
+//@   ghost var g_passed int = -1
+//@   at call Document.ImportUnionTypeDefinition: ghost g_passed = len(arg3)
+//@   ensures {member.types.reach.the.document} result == nil ==> g_passed == old(len(fullType.PossibleTypes))
+//@   modifies *
+//@   safety no-bounds
+//@   loop 0:
+//@     invariant len(typeRefs) == old(len(fullType.PossibleTypes)) && fresh(typeRefs)
+
+//@ func JsonConverter.importDirective
+//@   requires j != nil && j.doc != nil
+//@   ghost var g_ref int = -1
+//@   at call Document.ImportDirectiveDefinition: ghost g_ref = result
+//@   at call Document.ImportDirectiveDefinition: assert {locations.and.arguments.reach.the.document} arg4 == directive.Locations
+//@   at call JsonConverter.importInputFields: assert {the.directives.arguments.are.imported} arg1 == directive.Args
+//@   ensures {repeatable.is.preserved} result == nil ==> j.doc.DirectiveDefinitions[g_ref].Repeatable.IsRepeatable == directive.IsRepeatable
+//@   modifies *
+//@   safety no-bounds
+
+//@ func JsonConverter.importField
+//@   requires j != nil
+//@   at call Document.ImportFieldDefinition: assert {deprecation.is.preserved} (len(arg5) > 0) == field.IsDeprecated
+//@   at call JsonConverter.importInputFields: assert {the.fields.arguments.are.imported} arg1 == field.Args
+//@   at call JsonConverter.importType: assert {the.fields.type.is.imported} arg1.Kind == field.Type.Kind
+//@   modifies *
+//@   safety no-bounds
+
+//@ func JsonConverter.importInputField
+//@   requires j != nil
+//@   ghost var g_def bool = false
+//@   at call JsonConverter.importDefaultValue: ghost g_def = result0.IsDefined
+//@   at call JsonConverter.importDefaultValue: assert {the.default.value.is.imported} arg1 == field.DefaultValue
+//@   at call Document.ImportInputValueDefinition: assert {the.default.value.reaches.the.document} arg4.IsDefined == g_def
+//@   ensures {deprecation.is.preserved} result1 == nil ==> j.doc.InputValueDefinitions[result0].HasDirectives == field.IsDeprecated
+//@   modifies *
+//@   safety no-bounds
+
+//@ func JsonConverter.importEnum
+//@   requires j != nil && fullType != nil
+//@   ghost var g_passed int = -1
+//@   at call Document.ImportEnumValueDefinition: assert {deprecation.is.preserved} (len(arg3) > 0) == fullType.EnumValues[i].IsDeprecated
+//@   at call Document.ImportEnumTypeDefinition: ghost g_passed = len(arg3)
+//@   ensures {every.enum.value.reaches.the.document} g_passed == old(len(fullType.EnumValues))
+//@   modifies *
+//@   safety no-bounds
+//@   loop 0:
+//@     invariant len(valueRefs) == old(len(fullType.EnumValues)) && fresh(valueRefs) && g_passed == -1
+
+//@ func JsonConverter.importFullType
+//@   requires j != nil && fullType != nil
+//@   at call Document.ImportScalarTypeDefinition: assert {a.specifiedBy.url.is.preserved} fullType.SpecifiedByURL == nil
+//@   at call Document.ImportScalarTypeDefinitionWithDirectives: assert {a.specifiedBy.url.is.preserved} (len(arg3) > 0) == (fullType.SpecifiedByURL != nil)
+//@   modifies *
+//@   safety none
